@@ -71,4 +71,32 @@ def reversesSlip (src dst p q : Pt) : Bool :=
   axisReverses (dst.x - src.x) (q.x - p.x) ||
     (dimDir (dst.x - src.x) != 0 && -dimDir (dst.y - src.y) == dimDir (q.y - p.y))
 
+/-! ### `CmpVisEdgeRotation` (makepath.cpp, after fix 992d05a): the order in which the search explores the edges of a vertex
+
+Hand model (the translator has no `std::pair` locals): two orthogonal edges are ordered by `rotationLessThan` (a parameter
+here); a dummy connection-pin edge comes before an orthogonal one; two dummy edges are ordered by their endpoint pairs,
+each pair first put in `Point::operator<` order, and only if both pairs are equal by the edges' addresses. -/
+
+/-- what the comparator reads of an `EdgeInf*` -/
+structure EdgeKey where
+  orth : Bool
+  a : Pt
+  b : Pt
+  addr : Nat
+  deriving Repr, DecidableEq, Inhabited
+
+/-- `Point::operator<` (geomtypes.cpp): by x, then by y -/
+def ptLt (p q : Pt) : Bool := if p.x = q.x then decide (p.y < q.y) else decide (p.x < q.x)
+
+def EdgeKey.lo (e : EdgeKey) : Pt := if ptLt e.b e.a then e.b else e.a
+def EdgeKey.hi (e : EdgeKey) : Pt := if ptLt e.b e.a then e.a else e.b
+
+def dummyLt (u v : EdgeKey) : Bool :=
+  if u.lo ≠ v.lo then ptLt u.lo v.lo else if u.hi ≠ v.hi then ptLt u.hi v.hi else decide (u.addr < v.addr)
+
+def cmpVisEdge (rot : EdgeKey → EdgeKey → Bool) (u v : EdgeKey) : Bool :=
+  if u.orth && v.orth then rot u v
+  else if u.orth != v.orth then v.orth
+  else dummyLt u v
+
 end AdaptaVerif.Model.RouteCost
